@@ -19,7 +19,7 @@ End Build.
 (* the leaves of a layering, in accumulation order *)
 Fixpoint layer_leaves (l : layer) : list resource :=
   match l with
-  | Layer _ _ _ items =>
+  | Layer _ _ _ _ items =>
       (fix go (its : list (item layer)) : list resource :=
          match its with
          | [] => []
